@@ -131,25 +131,18 @@ pub enum Model {
     Sc,
 }
 
-/// Scheduling policy.
-#[derive(Clone, Copy, Debug, PartialEq, Eq)]
-pub enum Policy {
-    /// All schedules with at most `p` preemptions.
-    Preemption,
-    /// C08 adversary: model thread `target` is the only thread that can be interrupted; at each
-    /// of its scheduling points thread `writer` may run one or more complete calls (delimited by
-    /// `call_boundary()`), at most `k` calls in total. Other switches happen only when a thread
-    /// blocks or finishes.
-    Adversary { target: usize, writer: usize, k: u32 },
-}
-
 #[derive(Clone, Debug)]
 pub struct Config {
     pub p: u32,
     pub s: u32,
     pub f: u32,
     pub model: Model,
-    pub policy: Policy,
+    /// Budget of *free atomic calls*: model threads that declared themselves atomic
+    /// (`atomic_thread()`) never get preempted inside a call, and one complete call of theirs
+    /// (delimited by `call_boundary()`) can be placed at any scheduling point of a non-atomic
+    /// thread for one unit of this budget instead of a preemption. With `p = 0` this is the C08
+    /// adversary: complete writes between any two steps of the thread under test.
+    pub k: u32,
     /// Cap on engine steps of one execution.
     pub step_cap: u64,
     /// Record a readable event trace (replay mode).
@@ -165,7 +158,7 @@ impl Default for Config {
             s: 1,
             f: 1,
             model: Model::M1,
-            policy: Policy::Preemption,
+            k: 0,
             step_cap: 5000,
             trace: false,
             tls_reverse: false,
@@ -249,6 +242,8 @@ struct Th {
     call_depth: u32,
     tls: Vec<TlsEntry>,
     tls_torn: bool,
+    /// Declared by the thread itself: runs whole calls without being preempted.
+    atomic: bool,
     yielder: *const (),
     /// Set when the thread receives the baton at its start or after being blocked: its next
     /// scheduling point offers no alternatives (switching away before it did anything is
@@ -271,6 +266,7 @@ impl Th {
             call_depth: 0,
             tls: Vec::new(),
             tls_torn: false,
+            atomic: false,
             yielder: std::ptr::null(),
             just_scheduled: false,
         }
@@ -314,8 +310,10 @@ struct St {
     p_left: u32,
     s_left: u32,
     f_left: u32,
-    adv_left: u32,
-    adv_in_writer: bool,
+    k_left: u32,
+    /// Some(t): an atomic thread is running one placed call; when it reaches its call
+    /// boundary the baton goes back to t.
+    atomic_return: Option<usize>,
     steps: u64,
     drain: bool,
     violation: Option<Violation>,
@@ -360,8 +358,8 @@ fn g() -> &'static Global {
             p_left: 0,
             s_left: 0,
             f_left: 0,
-            adv_left: 0,
-            adv_in_writer: false,
+            k_left: 0,
+            atomic_return: None,
             steps: 0,
             drain: false,
             violation: None,
@@ -446,43 +444,52 @@ impl St {
         if st.drain || st.threads[me].quiet > 0 {
             return None;
         }
-        match st.cfg.policy {
-            Policy::Preemption => {
-                if st.p_left == 0 {
-                    return None;
+        if st.threads[me].atomic {
+            return None;
+        }
+        // alternatives: continue | preempt to a runnable non-atomic thread (costs a preemption)
+        //               | let a runnable atomic thread run one complete call (costs one k)
+        let mut pre: Vec<usize> = Vec::new();
+        let mut atom: Vec<usize> = Vec::new();
+        for t in 0..st.nthreads {
+            if t != me && st.threads[t].status == Status::Runnable {
+                if st.threads[t].atomic {
+                    atom.push(t);
+                } else {
+                    pre.push(t);
                 }
-                let others = st.runnable_others(me);
-                if others.is_empty() {
-                    return None;
-                }
-                let k = st.choose(1 + others.len(), "sched");
-                if k == 0 {
-                    return None;
-                }
-                st.p_left -= 1;
-                let next = others[k - 1];
-                if st.cfg.trace {
-                    let s = format!("      -- preempt t{} -> t{}", me, next);
-                    st.trace.push(s);
-                }
-                Some(next)
             }
-            Policy::Adversary { target, writer, .. } => {
-                if me != target || st.adv_left == 0 || st.threads[writer].status != Status::Runnable {
-                    return None;
-                }
-                let k = st.choose(2, "adv");
-                if k == 0 {
-                    return None;
-                }
-                st.adv_left -= 1;
-                st.adv_in_writer = true;
-                if st.cfg.trace {
-                    let s = format!("      -- adversary: writer t{} runs a complete call", writer);
-                    st.trace.push(s);
-                }
-                Some(writer)
+        }
+        if st.p_left == 0 {
+            pre.clear();
+        }
+        if st.k_left == 0 {
+            atom.clear();
+        }
+        if pre.is_empty() && atom.is_empty() {
+            return None;
+        }
+        let k = st.choose(1 + pre.len() + atom.len(), "sched");
+        if k == 0 {
+            return None;
+        }
+        if k <= pre.len() {
+            st.p_left -= 1;
+            let next = pre[k - 1];
+            if st.cfg.trace {
+                let s = format!("      -- preempt t{} -> t{}", me, next);
+                st.trace.push(s);
             }
+            Some(next)
+        } else {
+            let next = atom[k - 1 - pre.len()];
+            st.k_left -= 1;
+            st.atomic_return = Some(me);
+            if st.cfg.trace {
+                let s = format!("      -- atomic thread t{} runs one complete call here", next);
+                st.trace.push(s);
+            }
+            Some(next)
         }
     }
 
@@ -1134,11 +1141,10 @@ fn fiber_main(tid: usize, job: Job, y: &Yielder<(), ()>) {
         if st.cfg.trace {
             st.trace.push(format!("t{} finished", tid));
         }
-        if let Policy::Adversary { target, writer, .. } = st.cfg.policy {
-            if tid == writer && st.adv_in_writer {
-                st.adv_in_writer = false;
-                if st.threads[target].status == Status::Runnable {
-                    st.current = target;
+        if st.threads[tid].atomic {
+            if let Some(back) = st.atomic_return.take() {
+                if st.threads[back].status == Status::Runnable {
+                    st.current = back;
                     return;
                 }
             }
@@ -1415,28 +1421,36 @@ pub fn call_end() -> u64 {
     }
 }
 
-/// Adversary policy: the writer thread calls this between its calls.
+/// Declares the calling model thread atomic (see `Config::k`).
+pub fn atomic_thread() {
+    if let Some(me) = current_tid() {
+        with(|st| st.threads[me].atomic = true);
+    }
+}
+
+/// An atomic thread calls this between its calls: if the call was placed into a gap of another
+/// thread, either one more call runs in the same gap (costs one more k) or the baton goes back.
 pub fn call_boundary() {
     let me = match current_tid() {
         Some(m) => m,
         None => return,
     };
     let back = with(|st| {
-        if let Policy::Adversary { target, writer, .. } = st.cfg.policy {
-            if me == writer && st.adv_in_writer && !st.drain {
-                // Either run one more complete call in the same gap, or give the baton back.
-                let more = if st.adv_left > 0 { st.choose(2, "adv-more") } else { 0 };
-                if more == 1 {
-                    st.adv_left -= 1;
-                    return None;
-                }
-                st.adv_in_writer = false;
-                if st.threads[target].status == Status::Runnable {
-                    return Some(target);
-                }
-            }
+        if !st.threads[me].atomic || st.drain {
+            return None;
         }
-        None
+        let ret = st.atomic_return?;
+        let more = if st.k_left > 0 { st.choose(2, "atomic-more") } else { 0 };
+        if more == 1 {
+            st.k_left -= 1;
+            return None;
+        }
+        st.atomic_return = None;
+        if st.threads[ret].status == Status::Runnable {
+            Some(ret)
+        } else {
+            None
+        }
     });
     if let Some(t) = back {
         switch_to(me, t);
@@ -1488,7 +1502,9 @@ pub fn take_last_panic() -> Option<String> {
     LAST_PANIC.with(|l| l.borrow_mut().take())
 }
 
-fn install_panic_hook() {
+/// Installs a panic hook that stays silent for injected panics and records the message of
+/// panics on model threads (instead of printing them).
+pub fn install_panic_hook() {
     static HOOK: Once = Once::new();
     HOOK.call_once(|| {
         let verbose = std::env::var_os("VERIF_VERBOSE").is_some();
@@ -1564,11 +1580,8 @@ fn run_one(cfg: &Config, prefix: &[CP], body: &StdArc<dyn Fn() + Send + Sync>) -
         st.p_left = cfg.p;
         st.s_left = cfg.s;
         st.f_left = cfg.f;
-        st.adv_left = match cfg.policy {
-            Policy::Adversary { k, .. } => k,
-            _ => 0,
-        };
-        st.adv_in_writer = false;
+        st.k_left = cfg.k;
+        st.atomic_return = None;
         st.steps = 0;
         st.drain = false;
         st.violation = None;
